@@ -16,7 +16,7 @@ struct Opts {
     static Opts decode(const unsigned char *b, size_t n) {   // 12 bytes
         Opts o; if (n < 12) return o;
         static const int P[] = {-1, 0, 1, 19, 20, 21}, D[] = {-1, 0, 1, 2}, M[] = {-1, 0, 1};
-        o.prefer = P[b[0] % 6]; o.depth = D[b[1] % 4]; o.fold = M[b[2] % 3]; o.prefix = M[b[3] % 3]; o.ws = b[4] % NWS; o.eol = b[5] % NWS; o.enc = b[6] % 5; o.force = b[7] % 5 == 0; o.target = b[8] % 3;
+        o.prefer = P[b[0] % 6]; o.depth = D[b[1] % 4]; o.fold = M[b[2] % 3]; o.prefix = M[b[3] % 3]; o.ws = b[4] % NWS; o.eol = b[5] % NWS; o.enc = b[6] < 200 ? b[6] % 5 : 5 + (b[6] - 200) % 4; o.force = b[7] % 5 == 0; o.target = b[8] % 3;
         o.tape = 0; for (int i = 0; i < 3; i++) o.tape = (o.tape << 8) | b[9 + i];
         o.tape |= ~0ULL << 24;      // only the first 24 errors can be rejected; later ones are accepted
         return o;
@@ -26,7 +26,7 @@ struct Opts {
 // extra white space / end-of-line sets: documented ones (ASCII, C1 controls) and, because the property quantifies over every
 // combination of options, bytes outside the documented set (>= 0xA0), which must be ignored or handled without a memory error
 static const char *WS[] = {nullptr, "\v", "\f", "\v\f\x1f", "\x85", "\x9f\x80", "\xa0", "\xc2\x85", "\xff", "\xc1\xc2\xc3", "\xd5\xe0\xf0", "~"};
-static const char *ENC[] = {nullptr, "UTF-8", "ISO-8859-1", "UTF-16LE", "windows-1252"};
+static const char *ENC[] = {nullptr, "UTF-8", "ISO-8859-1", "UTF-16LE", "windows-1252", "CESU-8", "UTF-16BE", "US-ASCII", "UTF-32"};   // (option byte 6: values below 200 select the first five, as in older replay files)
 
 struct Log { std::vector<ph::Err> errs; std::string bad; unsigned long long tape = ~0ULL; int rejected_at = -1; long limit; };
 static int cb(int code, size_t line, size_t col, const UChar *text, size_t length, void *data) {
